@@ -67,13 +67,22 @@ def analyse(P, body):
                             rest = [n for k, n in enum.items() if k not in listed]
                             if len(rest) == 1:
                                 var_edges[(sb, t["otherwise"])] = rest[0]
+                            elif len(rest) > 1 and t.get("otherwise") is not None:
+                                # `matches!(record.block_type, Full)`: on the other edge the fragment is one of several types
+                                var_edges[(sb, t["otherwise"])] = tuple(sorted(rest))
     # dropped-fragment edges: Err edges of the physical read's result
     phys = [c for c in body.calls() if c.name == READ_PHYS and not body.is_cleanup(c.bb)]
     err_edges = set()
+    ok_edges = set()
+    from . import err as _err
     for c in phys:
+        A = _err.forward_aliases(body, c.dest["l"])
         for t in result_tests(body, c.dest["l"]):
             for e in t.err_edges():
                 err_edges.add(e)
+            if not (t.kind == "match" and _err.is_drop_glue_switch(body, t.bb, A)):
+                for e in t.ok_edges():
+                    ok_edges.add(e)
     phys_bbs = {c.bb for c in phys}
     # return sites: _0 = Ok((X, false))
     ret_checks = {}   # bb -> ("buffer"| "fragment" | "other")
@@ -99,9 +108,21 @@ def analyse(P, body):
     violations = []
     seen_v = set()
 
+    ALL = tuple(sorted(enum.values()))
+
     def check_fragment_used(bb, buf_now, variant, ext, pre, line):
         """a First/Middle/Last fragment that belongs to the record being assembled must have been appended before the
         reader moves on to the next physical record (or returns)"""
+        if isinstance(variant, tuple):
+            # the fragment was delivered but its type was not (fully) examined on this path: it may be a First fragment
+            if "First" in variant and not ext:
+                key = (bb, "dropped", variant)
+                if key not in seen_v:
+                    seen_v.add(key)
+                    violations.append({"line": line, "state": "DROPPED", "variant": "/".join(variant),
+                                       "detail": "a fragment whose type was not examined beyond {%s} can be skipped without being appended: a First "
+                                                 "fragment (also the payload-less one the writer emits when only a header fits) loses the start of its record" % ", ".join(variant)})
+            return
         if variant in ("Middle", "Last") and pre == "PARTIAL" and not ext:
             key = (bb, "dropped", variant)
             if key not in seen_v:
@@ -141,13 +162,25 @@ def analyse(P, body):
             return us
         lab, tg = data
         t = body.term(bb)
+        if (bb, tg) in ok_edges and variant is None:
+            variant = ALL
         if (bb, tg) in var_edges and var_edges[(bb, tg)] is not None:
-            variant = var_edges[(bb, tg)]
-            pre = buf if not pending else "PENDING"
-            if pending:
-                buf = apply(variant, buf)
-                pending = False
-                ext = True
+            nv = var_edges[(bb, tg)]
+            if isinstance(nv, tuple):
+                # narrowed to several candidates: intersect with what is already known
+                if isinstance(variant, tuple):
+                    both = tuple(x for x in nv if x in variant)
+                    variant = both[0] if len(both) == 1 else (both or nv)
+                elif variant is None:
+                    variant = nv
+            else:
+                variant = nv
+            if not isinstance(variant, tuple):
+                pre = buf if not pending else "PENDING"
+                if pending:
+                    buf = apply(variant, buf)
+                    pending = False
+                    ext = True
         if (bb, tg) in err_edges:
             # the physical record could not be delivered: whatever follows continues without this fragment
             if buf == "PARTIAL":
@@ -164,7 +197,7 @@ def analyse(P, body):
                 if buf == "BROKEN":
                     buf = "DIRTY"
                 ext = True
-                if variant is not None:
+                if variant is not None and not isinstance(variant, tuple):
                     buf = apply(variant, buf)
                 else:
                     pending = True
